@@ -8,8 +8,8 @@ from vlib.verdict import Case
 
 PROPERTY = 'C19'
 MANIFEST = {
- 'level_text': 'Lean 4 theorems, kernel-checked, about a model of Irc.queueMsg/sendMsg/takeMsg/die/reset and IrcMsgQueue, for every interleaving of those calls with clock ticks, MOTD end, PONG, echo-message (un)acknowledgement and configuration changes, and for every chain of outFilters (arbitrary functions): multiset conservation (accepted = handed to the driver + dropped by a filter + lost + discarded by reset + still queued; refusal is an explicit False with no effect), fast queue first then the most urgent non-empty class and its head, per-class FIFO as list equations over whole histories (a rate-limited JOIN only moves to the back), a trace checker for throttle and JOIN-rate gaps that every trace passes plus its meaning spelled out, the driver is killed only with both queues empty once connected (after the repair of takeMsg), takeMsg satisfies the recursive equation of the code and a filter returning None consumes exactly its message, progress (clock past the limits => a take consumes a message) and a quitting bot drains in at most as many takes as messages wait and then closes; after the repair of the echo emulation (the echo is now a tagged copy; a re-queued IrcMsg object used to be swallowed by the assertion) nothing is lost and the conservation law holds in full (no_loss, conservation_full: for callers handing over any objects any number of times and filters returning their argument or a new message); the tagged objects are only the echo copies made by the bot. Server tags are part of message equality (duplicate refusal). The labeled-response label is in the model as the first link of the chain (same object, one more server tag, never drops; delivered_is_labeled), so every theorem about arbitrary filter chains covers it. The ping time-out path is spelled out (ping_timeout_reconnects: nothing is returned, the driver reconnects, reset() clears both queues, forgets the unanswered PING and leaves exactly the registration messages, as new objects, in the fast queue; reset_starts_clean: the ping machinery is idle until the next end of MOTD, so a reconnect cannot trigger another; a dying bot queues nothing). Priority tables, the rate-limited command and the echo-emulated commands are re-extracted from /repo on every run and pinned by table lemmas. The model is tied to src/irclib.py by a differential run of seeded operation sequences on a real Irc object (return values, driver calls, filter log, discarded messages and the full queue/state dump after every operation), which also evaluates the property statement directly on the implementation to produce replays; a second stream drives the same Irc through the real drivers.Socket.SocketDriver on a fake socket (every takeMsg call the driver makes is compared with the model; the bytes on each connection must be exactly the messages takeMsg returned, each line at most 512 bytes and cut on a character boundary, every new connection starting with the registration) — which exposed and led to the repair of SocketDriver._sendIfMsgs (a message taken while the previous one was still buffered overwrote it).',
- 'level_note': 'Trusted: Lean kernel; axioms propext/Classical.choice/Quot.sound only; harness/extractors/ircqueue.py; the correspondence harness (generator quality bounds what it sees); integer-valued virtual clock; stub driver whose reconnect() calls irc.reset() as SocketDriver.reconnect does; a second Irc stays registered so that _reallyDie does not clear the shared callback list. Modelled: IrcMsgQueue.enqueue/dequeue/__contains__/reset, Irc.queueMsg/sendMsg/takeMsg (fast queue, throttle, ping emission and ping time-out reconnect, outFilter chain with recursion on None, firewall on a raising filter, echo emulation tag/assert, zombie branch)/die/reset/_queueConnectMessages/_reallyDie (driver part), object identity of messages, server tags in message equality. the labeled-response label (makeLabel() is random: the model uses the fresh number of the link; only the presence of such a label is compared). Not modelled: _truncateMsg as a function (it rewrites only the cached wire text, not prefix/command/arguments; its 512-byte bound is proved in C12 and checked here on the socket of the real driver with over-long ASCII and multi-byte messages); the label written into an object that is queued twice at the same moment (aliasing: the model labels each queue entry separately); state.addMsg of outgoing messages (only under world.testing; the harness runs with world.testing False); outFilters that call queueMsg/sendMsg themselves (re-entrancy: with them takeMsg is no longer guaranteed to terminate — a filter that drops and queues recurses without bound — so the fuel argument of the model does not carry over), the callbacks of real plugins (the Irc under test carries harness filter callbacks only), non-ASCII command upper-casing, negative or fractional rates, messages sent with sendMsg are outside the throttle/JOIN-rate claims (by design of the fast queue). Stated precondition of quit_drains: die() before the end of MOTD (afterConnect False) closes the connection at once by design.',
+ 'level_text': 'Lean 4 theorems, kernel-checked, about a model of Irc.queueMsg/sendMsg/takeMsg/die/reset and IrcMsgQueue, for every interleaving of those calls with clock ticks, MOTD end, PONG, echo-message (un)acknowledgement and configuration changes, and for every chain of outFilters (arbitrary functions): multiset conservation (accepted = handed to the driver + dropped by a filter + lost + discarded by reset + still queued; refusal is an explicit False with no effect), fast queue first then the most urgent non-empty class and its head, per-class FIFO as list equations over whole histories (a rate-limited JOIN only moves to the back), a trace checker for throttle and JOIN-rate gaps that every trace passes plus its meaning spelled out, the driver is killed only with both queues empty once connected (after the repair of takeMsg), takeMsg satisfies the recursive equation of the code and a filter returning None consumes exactly its message, progress (clock past the limits => a take consumes a message) and a quitting bot drains in at most as many takes as messages wait and then closes; after the repair of the echo emulation (the echo is now a tagged copy; a re-queued IrcMsg object used to be swallowed by the assertion) nothing is lost and the conservation law holds in full (no_loss, conservation_full: for callers handing over any objects any number of times and filters returning their argument or a new message); the tagged objects are only the echo copies made by the bot. Server tags are part of message equality (duplicate refusal). The labeled-response label is in the model as the first link of the chain (same object, one more server tag, never drops; delivered_is_labeled), so every theorem about arbitrary filter chains covers it. takeMsg is a loop since a repair prompted here (it called itself once per dropped message: some hundreds of messages dropped in a row hit the recursion limit, the firewall swallowed the RecursionError and a message no filter had dropped was lost; witness in KNOWN_FINDINGS, replayed at a shallow stack on every run); its bound, one round per message waiting at entry plus one, is the fuel of the model. OutFilters that call irc.sendMsg / irc.queueMsg themselves are modelled (Reentrant.lean): with filters that queue nothing the re-entrant model is the verified one (rtakeMsg_plain), conservation holds with everything the filters send counted as accepted (rtakeMsg_conserves), what they send goes behind what is waiting, and a run of dropped messages, whatever is queued meanwhile, cannot keep the first message the chain lets through from leaving in the same call (rtakeMsg_no_stall); the differential runs include such filters (drop-and-send, drop-and-queue, pass-and-send). The ping time-out path is spelled out (ping_timeout_reconnects: nothing is returned, the driver reconnects, reset() clears both queues, forgets the unanswered PING and leaves exactly the registration messages, as new objects, in the fast queue; reset_starts_clean: the ping machinery is idle until the next end of MOTD, so a reconnect cannot trigger another; a dying bot queues nothing). Priority tables, the rate-limited command and the echo-emulated commands are re-extracted from /repo on every run and pinned by table lemmas. The model is tied to src/irclib.py by a differential run of seeded operation sequences on a real Irc object (return values, driver calls, filter log, discarded messages and the full queue/state dump after every operation), which also evaluates the property statement directly on the implementation to produce replays; a second stream drives the same Irc through the real drivers.Socket.SocketDriver on a fake socket (every takeMsg call the driver makes is compared with the model; the bytes on each connection must be exactly the messages takeMsg returned, each line at most 512 bytes and cut on a character boundary, every new connection starting with the registration) — which exposed and led to the repair of SocketDriver._sendIfMsgs (a message taken while the previous one was still buffered overwrote it).',
+ 'level_note': 'Trusted: Lean kernel; axioms propext/Classical.choice/Quot.sound only; harness/extractors/ircqueue.py; the correspondence harness (generator quality bounds what it sees); integer-valued virtual clock; stub driver whose reconnect() calls irc.reset() as SocketDriver.reconnect does; a second Irc stays registered so that _reallyDie does not clear the shared callback list. Modelled: IrcMsgQueue.enqueue/dequeue/__contains__/reset, Irc.queueMsg/sendMsg/takeMsg (fast queue, throttle, ping emission and ping time-out reconnect, outFilter chain with recursion on None, firewall on a raising filter, echo emulation tag/assert, zombie branch)/die/reset/_queueConnectMessages/_reallyDie (driver part), object identity of messages, server tags in message equality. the labeled-response label (makeLabel() is random: the model uses the fresh number of the link; only the presence of such a label is compared). Not modelled: _truncateMsg as a function (it rewrites only the cached wire text, not prefix/command/arguments; its 512-byte bound is proved in C12 and checked here on the socket of the real driver with over-long ASCII and multi-byte messages); the label written into an object that is queued twice at the same moment (aliasing: the model labels each queue entry separately); state.addMsg of outgoing messages (only under world.testing; the harness runs with world.testing False); a filter chain that keeps re-sending what it drops (an endless source of messages: takeMsg gives up after one round per message waiting at entry plus one and returns None; nothing is lost, but such a chain starves the regular queue by its own doing), the callbacks of real plugins (the Irc under test carries harness filter callbacks only), non-ASCII command upper-casing, negative or fractional rates, messages sent with sendMsg are outside the throttle/JOIN-rate claims (by design of the fast queue). Stated precondition of quit_drains: die() before the end of MOTD (afterConnect False) closes the connection at once by design.',
  'technique': 'Lean 4 proof (induction over operation sequences with invariants) + table extraction + differential correspondence',
  'design_ref': 'DESIGN.md §6 C19',
 }
@@ -20,7 +20,8 @@ THEOREMS = ['C19.tables_ok', 'C19.classes_ok', 'C19.conservation', 'C19.conserva
             'C19.takeMsg_recursive', 'C19.filter_no_stall_fast', 'C19.filter_no_stall_queue',
             'C19.lost_only_tagged', 'C19.tagged_are_echo_copies', 'C19.no_stall', 'C19.quit_completes',
             'C19.ping_timeout_reconnects', 'C19.reset_starts_clean', 'C19.reset_zombie',
-            'C19.label_step', 'C19.delivered_is_labeled']
+            'C19.label_step', 'C19.delivered_is_labeled',
+            'C19.rtakeMsg_plain', 'C19.rtakeMsg_conserves', 'C19.rtakeMsg_no_stall']
 TRUSTED = ['Lean 4.33.0 kernel; axioms ⊆ {propext, Classical.choice, Quot.sound}',
            'harness/extractors/ircqueue.py (_high, _low, rate-limited command, echo-emulated commands → Gen/IrcQueue.lean)',
            'harness/c19.py generators, instrumentation (virtual clock, stub driver, recording outFilter callbacks), canonicalisation; hex line protocol',
@@ -723,6 +724,12 @@ def gen_rules(r):
         kind = r.choice(['drop', 'drop', 'raise', 'rewrite', 'same', 'resend', 'requeue', 'sendalso'])
         cmd = r.choice(HIGH + NORMAL + LOW)
         rules.append([kind, cmd, r.choice(['PRIVMSG', 'NOTICE', 'JOIN', 'MODE', 'XYZ', cmd])])
+    # what a re-entrant rule sends must not be matched by a rule again (a filter that keeps re-sending what it
+    # drops is an endless source of messages: its own bug, and the real driver would never stop collecting)
+    cmds = set(x[1] for x in rules)
+    for x in rules:
+        if x[0] in ('resend', 'requeue', 'sendalso') and x[2] in cmds:
+            x[2] = 'XYZ'
     return rules
 
 def gen_cfg(r):
@@ -799,7 +806,8 @@ def gen_ops(r, maxlen=60, reuse=False):
         jl = max([o[2] for o in ops if o[0] == 'cfg'] + [0])
         if r.random() < 0.3 and not any(o[0] == 'die' for o in ops):
             ops.append(['die'])
-        for _ in range(nmsgs + 8):
+        reent = any(x[0] in ('resend', 'requeue', 'sendalso') for o in ops if o[0] == 'filters' for x in o[1])
+        for _ in range((nmsgs + 8) * (2 if reent else 1)):      # (each message may be re-sent once)
             ops.append(['tick', max(th, jl) + 1])
             ops.append(['take'])
         ops.append(['drained'])
